@@ -16,6 +16,7 @@ META = {
     "note": "Trusted: TLC, the transcription of ISO 32000-1 7.2-7.5 in Syntax.tla/FileStructure.tla, the harness projection. Inputs are sampled. "
             "Incremental saves are validated by the C07 check (same reader).",
     "bins": ['c01'],
+    "seq_bins": ['loadseq'],
     "modules": ['Trace_Lifecycle.tla'],
     "design_ref": "DESIGN.md section 4 C03",
 }
